@@ -185,3 +185,15 @@ _R10 = {
 }
 for _k, _v in _R10.items():
     TEXTS[_k]["text"] += _v
+
+# clauses added after round 11
+_R11 = {
+    "C01": " Also (R01.j): the WASM bridge performs no subtraction / multiplication / shift.",
+    "C03": " Also: a one-match hit of a one-word query passes hit_matches whatever the match looks like (R03.m, abstract run); the word-to-word alternative of text_match calls word_match on every path (R03.n).",
+    "C04": " Also: a one-match hit of a one-word query passes hit_matches (R04.m, abstract run); the word-to-word alternative of text_match calls word_match on every path (R04.n).",
+    "C05": " Also (R05.b): candidate positions of a non-empty query come from the index only and are mapped through self.records[ix].",
+    "C13": " Also (R13.j): the word-to-word alternative of text_match calls word_match on every path.",
+    "C14": " Also: hits made by a split (1,2,2) or joined (2,1,1) spelling pass hit_matches (R14.l, abstract run); WordMatch::split never gives up a match that reaches into the second word (R14.f threshold).",
+}
+for _k, _v in _R11.items():
+    TEXTS[_k]["text"] += _v
